@@ -486,14 +486,14 @@ def run_S2(ctx, case):
     return result('S2', '%s%s commit=%d W=%d' % (what, ' ports %s' % (case['pair'],) if case.get('pair') else '', commit, W), q, paths=npaths[0], detail='%d paths; map rows %d, required %d' % (npaths[0], rows, REQ))
 
 def jobs_S2(ctx):
-    quick = ctx['tier'] == 'quick'; W = 4 if quick else 10; Wm = 3 if quick else 5
+    quick = ctx['tier'] == 'quick'; W = 4 if quick else 10; Wm = 3 if quick else 4
     pairs = [(a, b) for a in range(1, 8) for b in range(1, 8) if not (a & b)]
     if quick: pairs = [(2, 4), (4, 2), (3, 4), (1, 6)]
     return [dict(what='table')] + [dict(what=w, commit=c, W=W) for w in ('uop', 'mop') for c in (0, 1)] + [dict(what='mop', commit=c, W=Wm, pair=pr) for pr in pairs for c in (0, 1)]
 
 LEMMAS['S2'] = dict(jobs=jobs_S2, run=run_S2, units=['ss'], functions=['scheduleUop<false>', 'scheduleUop<true>', 'scheduleMop<false>', 'scheduleMop<true>', 'MacroOp table (static initialisers)'],
     doc='port assignment == spec 6.3.3: for every port map, start cycle, dependency cycle and macro-op (0, 1 or 2 micro-ops on any port subsets, two micro-ops on disjoint subsets as in table 6.2.1) the scheduler returns the first cycle >= start (start = max(cycle, depCycle) for a dependent macro-op) in which every micro-op finds a free permitted port, tries ports in the order P5, P0, P1, marks exactly the chosen ports when committing and nothing otherwise; the cycle map holds every cycle up to RANDOMX_SUPERSCALAR_LATENCY + 2 (a cycle in which real keys commit a macro-op after look-forward stalls: witness key "k10660", program 0, cycle 172), so "no port" is never answered for a first fit up to there; the macro-op objects equal table 6.2.1',
-    bound='start and dependency cycles 0..latency+2; the first fitting cycle within W = 4 (one micro-op) / 3 (two micro-ops) cycles of the start in the quick tier, 10 / 5 thorough; port map contents symbolic (z3 array); one micro-op: port mask symbolic; two micro-ops: one job per pair of disjoint port masks (4 pairs quick incl. the (P1,P5) of mul_r / imul_r, all 12 thorough)', symbolic='port map, micro-op port masks, cycle, depCycle, dependent flag',
+    bound='start and dependency cycles 0..latency+2; the first fitting cycle within W = 4 (one micro-op) / 3 (two micro-ops) cycles of the start in the quick tier, 10 / 4 thorough; port map contents symbolic (z3 array); one micro-op: port mask symbolic; two micro-ops: one job per pair of disjoint port masks (4 pairs quick incl. the (P1,P5) of mul_r / imul_r, all 12 thorough)', symbolic='port map, micro-op port masks, cycle, depCycle, dependent flag',
     stubs=[], outside='which start cycles the decode loop of generateSuperscalar passes (the loop itself is not executed symbolically); first fits further than W cycles from the start; first fits beyond cycle latency+2 (never observed in 33 million generated programs): there the reference answers "no port" from cycle latency+4 on and the specification is silent')
 
 # ----------------------------------------------------------------------------------------------- S3 address register (spec 7.3 step 6): the tail of generateSuperscalar from a cut point
@@ -559,7 +559,7 @@ def run_S3(ctx, case):
     res, nq = explore(one, limit=5000); q.n += nq
     return result('S3', 'programs of %d instructions' % K, q, paths=npaths[0], detail='%d paths; cut point = block %%%s of generateSuperscalar (%d tail blocks)' % (npaths[0], entry, len(T)))
 
-LEMMAS['S3'] = dict(jobs=lambda ctx: [dict(n=k) for k in range(0, 5 if ctx['tier'] == 'quick' else 8)], run=run_S3, units=['ss'], functions=['generateSuperscalar (from the end of the generation loop to the return)', 'SuperscalarProgram::operator()', 'setSize', 'setAddressRegister', 'std::max<int>'],
+LEMMAS['S3'] = dict(jobs=lambda ctx: [dict(n=k) for k in range(0, 5 if ctx['tier'] == 'quick' else 7)], run=run_S3, units=['ss'], functions=['generateSuperscalar (from the end of the generation loop to the return)', 'SuperscalarProgram::operator()', 'setSize', 'setAddressRegister', 'std::max<int>'],
     doc='address register == spec 7.3 step 6: for every instruction list the register passed to setAddressRegister has the longest dependency chain (chain of a destination = 1 + max(chain of destination, chain of a different source)); the size recorded is the number of generated instructions and the instructions are not modified after the loop',
-    bound='programs of 0..4 (quick) / 0..7 instructions (one job per size); the real code is executed from a cut point: the entry of the loop-free-of-generator-calls tail of generateSuperscalar, every value computed before it arbitrary', symbolic='program size, all instruction bytes (dst, src in r0..r7 by S1), every scalar live across the cut, stack contents',
+    bound='programs of 0..4 (quick) / 0..6 instructions (one job per size); the real code is executed from a cut point: the entry of the loop-free-of-generator-calls tail of generateSuperscalar, every value computed before it arbitrary', symbolic='program size, all instruction bytes (dst, src in r0..r7 by S1), every scalar live across the cut, stack contents',
     stubs=[], outside='longer programs (the chain computation is a fold over the instruction list: the same loop body per instruction); how ties between equally long chains are resolved (the specification is silent; the reference takes the lowest index)')
